@@ -186,9 +186,11 @@ inline constexpr bool QUOTIENT_OK<cnl::scaled_integer<Rep, cnl::power<E, 2>>> = 
 template<class LT, class RT>
 void pair_all(sink& out, int salt)
 {
-    int nr = thorough() ? 24 : 2;
-    auto ls = number_values<LT>(nr, static_cast<std::uint64_t>(salt) * 10 + 1);
-    auto rs = number_values<RT>(nr, static_cast<std::uint64_t>(salt) * 10 + 2);
+    // the thorough tier's breadth is in its instantiations (330 lattice rows); operand sets grow only by random values
+    int nr = thorough() ? 6 : 2;
+    bool const ex8 = salt % 8 == 0;      // every 8th instantiation: 8-bit representations over all their values
+    auto ls = number_values<LT>(nr, static_cast<std::uint64_t>(salt) * 10 + 1, 0, ex8);
+    auto rs = number_values<RT>(nr, static_cast<std::uint64_t>(salt) * 10 + 2, 0, ex8);
     using namespace cnl::_impl;
     bin<add_op>(out, "add", ls, rs);
     bin<subtract_op>(out, "sub", ls, rs);
@@ -200,8 +202,8 @@ void pair_all(sink& out, int salt)
     if constexpr (QUOTIENT_OK<LT> && QUOTIENT_OK<RT>) {
         quot(out, ls, rs);
     }
-    auto lw = number_values<LT>(thorough() ? 100 : 12, static_cast<std::uint64_t>(salt) * 10 + 5, thorough() ? 2 : 1);
-    auto rw = number_values<RT>(thorough() ? 100 : 12, static_cast<std::uint64_t>(salt) * 10 + 6, thorough() ? 2 : 1);
+    auto lw = number_values<LT>(thorough() ? 40 : 12, static_cast<std::uint64_t>(salt) * 10 + 5, 1, false);
+    auto rw = number_values<RT>(thorough() ? 40 : 12, static_cast<std::uint64_t>(salt) * 10 + 6, 1, false);
     if constexpr (!std::is_integral_v<LT>) {
         neg(out, lw);
         roundtrip(out, lw);
@@ -214,9 +216,9 @@ void pair_all(sink& out, int salt)
 template<class LT, class RT>
 void cmp_all(sink& out, int salt)
 {
-    int nr = thorough() ? 40 : 6;
-    auto ls = number_values<LT>(nr, static_cast<std::uint64_t>(salt) * 10 + 7, thorough() ? 1 : 0);
-    auto rs = number_values<RT>(nr, static_cast<std::uint64_t>(salt) * 10 + 8, thorough() ? 1 : 0);
+    int nr = thorough() ? 20 : 6;
+    auto ls = number_values<LT>(nr, static_cast<std::uint64_t>(salt) * 10 + 7, thorough() ? 1 : 0, false);
+    auto rs = number_values<RT>(nr, static_cast<std::uint64_t>(salt) * 10 + 8, thorough() ? 1 : 0, false);
     cmp(out, ls, rs);
     cmp(out, rs, ls);
 }
